@@ -231,6 +231,10 @@ func (in *Interp) quickSat(extra *Term) map[string]uint64 {
 	return nil
 }
 
+// enumWorkLimit bounds the node evaluations spent by one two-variable enumeration pass (tryEnum2); beyond it
+// the remaining sub-formulas are left to the solver.
+const enumWorkLimit = int64(400_000_000)
+
 type simpEnt struct {
 	ver int
 	res *Term
@@ -278,8 +282,15 @@ func (in *Interp) simplifyBool(t *Term) *Term {
 		if e, ok := in.simpMemo[key]; ok && e.ver == in.domVer[v1]*100003+in.domVer[v2] {
 			return e.res
 		}
+		if in.enumWork > enumWorkLimit {
+			goto structural
+		}
 		d1, d2 := in.domOf(v1), in.domOf(v2)
 		nT, nF := 0, 0
+		cost := int64(t.size)
+		if cost > 20000 {
+			cost = 20000
+		}
 		// cheap sampling first: most non-constant terms show both values quickly
 		for i := uint64(0); i < 48 && (nT == 0 || nF == 0); i++ {
 			a := (i*37 + 11) & mask(v1.w)
@@ -315,8 +326,13 @@ func (in *Interp) simplifyBool(t *Term) *Term {
 				} else {
 					nF++
 				}
+				in.enumWork += cost
 				if nT > 0 && nF > 0 {
 					break outer
+				}
+				if in.enumWork > enumWorkLimit {
+					in.stats.EnumCut++
+					goto structural
 				}
 			}
 		}
@@ -425,6 +441,7 @@ func (in *Interp) feasible(extra *Term) (map[string]uint64, string) {
 			return nil, "", false
 		}
 		in.enum2 = true
+		in.enumWork = 0
 		e2 := in.simplifyBool(extra)
 		in.enum2 = false
 		if e2.IsConst() {
@@ -983,6 +1000,7 @@ type workerStats struct {
 	DomUnsat int
 	Merges   int
 	Enum2    int
+	EnumCut  int
 }
 
 func traceString(tr []Decision) string {
